@@ -26,26 +26,25 @@ pub fn calc_witness<I: IntoIterator<Item = (String, Vec<Fr>)>>(
     let (nodes, signals, input_mapping): (Vec<Node>, Vec<usize>, InputSignalsInfo) =
         deserialize_witnesscalc_graph(std::io::Cursor::new(graph_data)).unwrap();
 
-    let mut inputs_buffer = get_inputs_buffer(get_inputs_size(&nodes));
+    let mut inputs_buffer = get_inputs_buffer(get_inputs_size(&nodes, &input_mapping));
     populate_inputs(&inputs, &input_mapping, &mut inputs_buffer);
 
     graph::evaluate(&nodes, inputs_buffer.as_slice(), &signals)
 }
 
-fn get_inputs_size(nodes: &[Node]) -> usize {
-    let mut start = false;
-    let mut max_index = 0usize;
+fn get_inputs_size(nodes: &[Node], inputs_info: &InputSignalsInfo) -> usize {
+    // the buffer must hold every input a node refers to ...
+    let mut size = 1usize;
     for &node in nodes.iter() {
         if let Node::Input(i) = node {
-            if i > max_index {
-                max_index = i;
-            }
-            start = true
-        } else if start {
-            break;
+            size = size.max(i + 1);
         }
     }
-    max_index + 1
+    // ... and every declared input signal, even one that no node uses
+    for (offset, len) in inputs_info.values() {
+        size = size.max(offset + len);
+    }
+    size
 }
 
 fn populate_inputs(
